@@ -231,3 +231,50 @@ func GenHistory(r *ref.Rand, keys []string, o GenOpts) []Op {
 	}
 	return ops
 }
+
+// GenGCScenario builds a staged history aimed at the interplay of successive GC
+// passes, deletes and index rebuilds: fill several files; rebuild; collect the
+// low files; delete and overwrite keys whose older versions stay in low files;
+// rebuild (tombstones leave the tree); collect a range that does not begin at
+// the first file; rebuild and read everything back; then some free-form traffic.
+func GenGCScenario(r *ref.Rand, keys []string, o GenOpts) []Op {
+	var ops []Op
+	seq := 0
+	set := func(k string) {
+		seq++
+		ops = append(ops, Op{K: "set", Key: k, Val: &ref.ValueSpec{Class: ref.ValueClasses[r.Intn(4)], Size: r.Range(20, o.MaxVal), Seed: r.Uint64(), Tag: fmt.Sprint(seq)}, Flag: GenFlag(r)})
+	}
+	rounds := r.Range(2, 4)
+	for i := 0; i < rounds; i++ {
+		for _, k := range keys {
+			if r.Intn(5) > 0 {
+				set(k)
+			}
+		}
+		ops = append(ops, Op{K: "flush"})
+	}
+	ops = append(ops, Op{K: "restart", Rm: []string{"all", "hash"}[r.Intn(2)]})
+	ops = append(ops, Op{K: "gc", Sel: r.Uint64() % 1000, Merge: r.Bool(), Pref: "low"})
+	for _, k := range keys {
+		switch r.Intn(4) {
+		case 0, 1:
+			ops = append(ops, Op{K: "del", Key: k})
+		case 2:
+			set(k)
+		}
+	}
+	for i := r.Range(2, 8); i > 0; i-- {
+		set(keys[r.Intn(len(keys))])
+	}
+	ops = append(ops, Op{K: "flush"})
+	ops = append(ops, Op{K: "restart", Rm: []string{"all", "hash", "hash"}[r.Intn(3)]})
+	ops = append(ops, Op{K: "gc", Sel: r.Uint64() % 1000, Merge: r.Bool(), Pref: "high"})
+	ops = append(ops, Op{K: "restart", Rm: "all"})
+	if r.Bool() {
+		ops = append(ops, Op{K: "gc", Sel: r.Uint64() % 1000, Merge: r.Bool(), Pref: []string{"", "low", "high"}[r.Intn(3)]}, Op{K: "restart", Rm: "all"})
+	}
+	tail := o
+	tail.NOps = r.Range(5, 20)
+	ops = append(ops, GenHistory(r, keys, tail)...)
+	return ops
+}
